@@ -35,5 +35,7 @@ def replay(prop, path):
     if w.get('engine') == 'thr':
         from . import thr
         return thr.replay(prop, path)
-    print('unknown witness engine')
-    return 2
+    # witnesses of the generated self-reporting programs and of the fixed scenes: those programs are deterministic
+    # functions of (tree, tier, seed), so replaying means running that check again with the recorded tier and seed
+    print('replay: witness of engine %r - re-running %s --tier %s with seed %s' % (w.get('engine'), prop, w.get('tier', 'quick'), w.get('seed', 1)))
+    return run(prop, w.get('tier', 'quick'), int(w.get('seed', 1)))
